@@ -1,6 +1,7 @@
 package drv
 
 import (
+	"path/filepath"
 	"bufio"
 	"crypto/tls"
 	"encoding/base64"
@@ -14,6 +15,14 @@ import (
 	"strings"
 	"time"
 
+	"github.com/bolkedebruin/gokrb5/v8/client"
+	krbconfig "github.com/bolkedebruin/gokrb5/v8/config"
+	"github.com/bolkedebruin/gokrb5/v8/iana/etypeID"
+	"github.com/bolkedebruin/gokrb5/v8/iana/nametype"
+	"github.com/bolkedebruin/gokrb5/v8/keytab"
+	"github.com/bolkedebruin/gokrb5/v8/messages"
+	"github.com/bolkedebruin/gokrb5/v8/spnego"
+	"github.com/bolkedebruin/gokrb5/v8/types"
 	"github.com/m7913d/go-ntlm/ntlm"
 
 	"verifharness/gw"
@@ -399,6 +408,34 @@ func (i *Inst) runFrontStep(s *FrontScript, tw *TraceWriter, rng *rand.Rand, jar
 	case "ntlm-garbage":
 		set("ntlm", false, false, "")
 		one(az("NTLM " + b64("garbage-not-ntlm")))
+	case "krb-right", "krb-expired", "krb-notyet", "krb-wrongkey", "krb-otherservice", "krb-expired-4min":
+		// the harness plays the KDC: service tickets for the gateway's principal, made with the key in the gateway's keytab
+		// (or with another key / for another service), valid now, expired half an hour ago, not valid for another half
+		// hour, or expired four minutes ago (inside the five minutes of clock skew Kerberos allows: either verdict)
+		now := time.Now()
+		start, end := now.Add(-10*time.Minute), now.Add(8*time.Hour)
+		conf := s.Authz == "krb-right"
+		switch s.Authz {
+		case "krb-expired":
+			start, end = now.Add(-9*time.Hour), now.Add(-30*time.Minute)
+		case "krb-notyet":
+			start, end = now.Add(30*time.Minute), now.Add(9*time.Hour)
+		case "krb-expired-4min":
+			start, end = now.Add(-9*time.Hour), now.Add(-4*time.Minute)
+			ev["free"] = true
+		}
+		set("negotiate-krb", true, conf, "alice")
+		hdr, err := i.negotiateHeader("alice", s.Authz, start, end)
+		if err != nil {
+			if i.krbDir == "" {
+				// no keytab in this configuration: kerberos is not enabled; a token made with some key stands in
+				set("negotiate-krb", true, false, "")
+				hdr = "Negotiate " + b64("\x60\x82no-kerberos-here")
+			} else {
+				return err
+			}
+		}
+		one(az(hdr))
 	case "negotiate-krb-garbage":
 		set("negotiate-krb", false, false, "")
 		one(az("Negotiate " + b64("\x60\x82not-a-spnego-token")))
@@ -509,4 +546,44 @@ func (i *Inst) runTunUser(s *FrontScript, tw *TraceWriter, rng *rand.Rand) error
 	}
 	tw.Line(M{"ev": "tunuser", "script": s.ID, "cls": strings.Join(mechs, "+"), "mechs": mechs, "transport": s.Transport, "scheme": s.Scheme, "confirmed": user, "seen": seen, "interf": interf, "ended": ended})
 	return nil
+}
+
+
+// negotiateHeader plays KDC and client: a service ticket for the gateway's principal with the given validity, wrapped
+// with a fresh authenticator in a SPNEGO token.
+func (i *Inst) negotiateHeader(user, cls string, start, end time.Time) (string, error) {
+	if i.krbDir == "" {
+		return "", fmt.Errorf("no keytab")
+	}
+	kt, err := keytab.Load(filepath.Join(i.krbDir, "gw.keytab"))
+	if err != nil {
+		return "", err
+	}
+	realm, spn := "EXAMPLE.ORG", "HTTP/gw.example.org"
+	switch cls {
+	case "krb-wrongkey":
+		kt = keytab.New()
+		kt.AddEntry(spn, realm, "some-other-password", time.Now(), 1, 18)
+	case "krb-otherservice":
+		spn = "HTTP/other.example.org"
+		kt = keytab.New()
+		kt.AddEntry(spn, realm, "keytab-password", time.Now(), 1, 18)
+	}
+	cname := types.NewPrincipalName(nametype.KRB_NT_PRINCIPAL, user)
+	sname := types.NewPrincipalName(nametype.KRB_NT_SRV_INST, spn)
+	tkt, sessionKey, err := messages.NewTicket(cname, realm, sname, realm, types.NewKrbFlags(), kt, etypeID.AES256_CTS_HMAC_SHA1_96, 1, start, start, end, end)
+	if err != nil {
+		return "", err
+	}
+	cl := client.NewWithPassword(user, realm, "irrelevant", krbconfig.New())
+	nti, err := spnego.NewNegTokenInitKRB5(cl, tkt, sessionKey)
+	if err != nil {
+		return "", err
+	}
+	st := spnego.SPNEGOToken{Init: true, NegTokenInit: nti}
+	b, err := st.Marshal()
+	if err != nil {
+		return "", err
+	}
+	return "Negotiate " + base64.StdEncoding.EncodeToString(b), nil
 }
